@@ -1,0 +1,75 @@
+//go:build verif
+
+// The engine contract: what the backend may assume of any storage.KvStorage, and what every
+// adapter has to provide. Checked by /verif/kbv (build tag "verif"). Comments only.
+
+package storage
+
+// ---- ghost record of write batches ----
+// A batch is identified by its interface value. bw_n is the number of operations added so
+// far; operation i has kind bw_kind[b][i] (1 PutIfNotExist, 2 CAS, 3 Put, 4 Del, 5 DelCurrent),
+// key bw_key, value bw_val, expected old value bw_old and ttl bw_ttl. The slices are the
+// caller's; their contents are read in the heap of the moment a contract mentions them.
+//@ ghost bw_n (Array Iface Int)
+//@ ghost bw_kind (Array Iface (Array Int Int))
+//@ ghost bw_key (Array Iface (Array Int Slice))
+//@ ghost bw_val (Array Iface (Array Int Slice))
+//@ ghost bw_old (Array Iface (Array Int Slice))
+//@ ghost bw_ttl (Array Iface (Array Int Int))
+// commits counts Commit calls; last_batch / last_err describe the most recent one.
+//@ ghost commits Int
+//@ ghost last_batch Iface
+//@ ghost last_err Iface
+// batch_open: a batch has been begun and not yet committed by this request
+//@ ghost batch_open Bool
+
+//@ func KvStorage.BeginBatchWrite() (batch)
+//@   assumed
+//@   modifies ghost.bw_n ghost.batch_open
+//@   ensures [new] batch != nil && bw_n == upd(old(bw_n), batch, 0) && batch_open
+
+//@ func BatchWrite.PutIfNotExist(key, val, ttl)
+//@   assumed
+//@   modifies ghost.bw_n ghost.bw_kind ghost.bw_key ghost.bw_val ghost.bw_ttl
+//@   ensures [op] bw_n == upd(old(bw_n), self, old(bw_n)[self]+1) && bw_kind == upd(old(bw_kind), self, upd(old(bw_kind)[self], old(bw_n)[self], 1))
+//@   ensures [args] bw_key == upd(old(bw_key), self, upd(old(bw_key)[self], old(bw_n)[self], key)) && bw_val == upd(old(bw_val), self, upd(old(bw_val)[self], old(bw_n)[self], val)) && bw_ttl == upd(old(bw_ttl), self, upd(old(bw_ttl)[self], old(bw_n)[self], ttl))
+
+//@ func BatchWrite.CAS(key, newVal, oldVal, ttl)
+//@   assumed
+//@   modifies ghost.bw_n ghost.bw_kind ghost.bw_key ghost.bw_val ghost.bw_old ghost.bw_ttl
+//@   ensures [op] bw_n == upd(old(bw_n), self, old(bw_n)[self]+1) && bw_kind == upd(old(bw_kind), self, upd(old(bw_kind)[self], old(bw_n)[self], 2))
+//@   ensures [args] bw_key == upd(old(bw_key), self, upd(old(bw_key)[self], old(bw_n)[self], key)) && bw_val == upd(old(bw_val), self, upd(old(bw_val)[self], old(bw_n)[self], newVal)) && bw_old == upd(old(bw_old), self, upd(old(bw_old)[self], old(bw_n)[self], oldVal)) && bw_ttl == upd(old(bw_ttl), self, upd(old(bw_ttl)[self], old(bw_n)[self], ttl))
+
+//@ func BatchWrite.Put(key, val, ttl)
+//@   assumed
+//@   modifies ghost.bw_n ghost.bw_kind ghost.bw_key ghost.bw_val ghost.bw_ttl
+//@   ensures [op] bw_n == upd(old(bw_n), self, old(bw_n)[self]+1) && bw_kind == upd(old(bw_kind), self, upd(old(bw_kind)[self], old(bw_n)[self], 3))
+//@   ensures [args] bw_key == upd(old(bw_key), self, upd(old(bw_key)[self], old(bw_n)[self], key)) && bw_val == upd(old(bw_val), self, upd(old(bw_val)[self], old(bw_n)[self], val)) && bw_ttl == upd(old(bw_ttl), self, upd(old(bw_ttl)[self], old(bw_n)[self], ttl))
+
+//@ func BatchWrite.Commit(ctx) (err)
+//@   assumed
+//@   modifies ghost.commits ghost.last_batch ghost.last_err ghost.batch_open ghost.floor ghost.floor_set
+//@   ensures [count] commits == old(commits)+1 && last_batch == self && last_err == err && !batch_open
+//@   ensures [floor-untouched] !(old(bw_n)[self] >= 1 && is_compact_key(old(bw_key)[self][0])) ==> floor == old(floor) && floor_set == old(floor_set)
+//@   ensures [floor-failed] err != nil && !err_is(err, ErrUncertainResult) ==> floor == old(floor) && floor_set == old(floor_set)
+//@   ensures [floor-put] err == nil && old(bw_n)[self] >= 1 && is_compact_key(old(bw_key)[self][0]) && old(bw_kind)[self][0] == 3 ==> floor_set && floor == be64_of(old(bw_val)[self][0])
+//@   ensures [floor-create] err == nil && old(bw_n)[self] >= 1 && is_compact_key(old(bw_key)[self][0]) && old(bw_kind)[self][0] == 1 ==> !old(floor_set) && floor_set && floor == be64_of(old(bw_val)[self][0])
+//@   ensures [floor-cas] err == nil && old(bw_n)[self] >= 1 && is_compact_key(old(bw_key)[self][0]) && old(bw_kind)[self][0] == 2 ==> old(floor_set) && len(old(bw_old)[self][0]) == 8 && be64_of(old(bw_old)[self][0]) == old(floor) && floor_set && floor == be64_of(old(bw_val)[self][0])
+//@   ensures [floor-uncertain] err != nil && err_is(err, ErrUncertainResult) ==> (floor == old(floor) && floor_set == old(floor_set)) || (floor_set && old(bw_n)[self] >= 1 && floor == be64_of(old(bw_val)[self][0]))
+
+// The compaction floor: the big-endian value stored under the compact key (C08).
+//@ ghost floor (_ BitVec 64)
+//@ ghost floor_set Bool
+
+//@ func KvStorage.Get(ctx, key) (val, err)
+//@   assumed
+//@   ensures [wf] err != nil ==> len(val) == 0
+//@   ensures [floor] is_compact_key(key) ==> ((err == ErrKeyNotFound) == !floor_set) && (err == nil ==> len(val) == 8 && be64_of(val) == floor)
+
+//@ func KvStorage.SupportTTL() (result)
+//@   assumed
+//@   pure
+
+//@ func KvStorage.GetTimestampOracle(ctx) (timestamp, err)
+//@   assumed
+//@   pure
